@@ -62,7 +62,7 @@ def main(ctx: Ctx):
         combos = rng.sample(combos, min(len(combos), 120))
     sess = inject.Session()
     try:
-        from pyworkers.remote_server import spawn_server
+        from common import spawn_server
         for ci, states in enumerate(combos):
             hows = ('terminate', 'SIGTERM') if (T or len(states) <= 1 or ci % 2 == 0) else (rng.choice(['terminate', 'SIGTERM']),)
             if 'swallowing' in states:
